@@ -19,6 +19,7 @@ R = {
  "C19-c": (True, "", "directed input where the highest-numbered vertex is neither a tail nor a successor of the highest tail"),
  "C20-c": (False, "C20 T4-classes-keyed-by-rep", "first queried element of a class is not its root and another member follows, e.g. unite(5, 1); classes(&[1, 5])"),
  "C11-c": (True, "caught by the C09/C10 checks (T1 write-through over every writer of FreeWord.w): the change is in free_words.rs, not in cosets.rs", "coset_representative reaching a new row by applying the same generator twice in a row (a generator with a cycle of length >= 4 on the cosets: Z_n n >= 4, Q8, ...)"), "C12-c": (False, "C11/C12 T9-relator-scan (scan_both_ways = (head with the full budget, tail with the rest, gap, w[i]); both exits of scan / scan_inverse)", "relators in which some generator occurs only once: genus-2 surface group at bound 3 (panic), <a,b,c | c = b^3> at bound 4 (two equivalent tables)"),
+ "C16-b": (True, "", "renumberings in which a move picks a digon left over by the swapped merge order: 4 of 24 numberings of 553.3, 39 of 191 cyclic shifts of its 192-chamber cover"),
  "C16-a": (False, "C16 T3-squeeze-guard (exclusions canonicalised as words in the involutions, so both directions of the one-step rotation must be excluded)", "a 2-valent vertex whose two faces are glued to each other by a one-step rotation in the unguarded direction: lens spaces L(p,1) as p-gonal dihedra, p >= 6"),
 }
 import sys
